@@ -1,7 +1,7 @@
 (* C03 correspondence driver: the extracted validation model (Model/Validate.v) and the reference
    statement ogc_valid (Model/ValidateSpec.v) against the implementation's observations
    (harness/cmd/c03).  One case per line:
-     id <TAB> class <TAB> group <TAB> variant <TAB> geometry <TAB> observations
+     id <TAB> class <TAB> group <TAB> variant <TAB> geometry <TAB> observations <TAB> base geometry
    geometry: prefix tokens  P - | P x y | L n x y .. | Y k (n x y ..)* | MP k (P ..)* | ML k (L ..)* |
    MY k (Y ..)* | GC k geom*   with ordinates integer | nan | inf | -inf
    observations: key=value tokens (val gval wkt wkb json simple ring closed; 1/0, p = panic, - = not observed).
@@ -107,9 +107,12 @@ let () =
          verdict is computed for the base and for every ogc_every-th variant. *)
       let new_group = grp <> !cur_group in
       if new_group then begin
-        cur_group := grp; group_val := goval; group_first := id;
-        group_simple := get "simple"; group_ring := get "ring"; group_ogc := ""
+        cur_group := grp; group_first := grp ^ ".0"; group_ogc := ""
       end;
+      (* the verdicts of the base representation travel on every line *)
+      group_val := (if get "bval" <> "-" then get "bval" else goval);
+      group_simple := (if get "bsimple" <> "-" then get "bsimple" else get "simple");
+      group_ring := (if get "bring" <> "-" then get "bring" else get "ring");
       if new_group || (ogc_every > 0 && !lineno mod ogc_every = 0) then begin
         let o = b2s (ogc_valid g) in
         count "ogc_evaluated";
@@ -117,12 +120,13 @@ let () =
         if o <> goval then
           fail id "SPEC" "ogc_valid" (trunc (Printf.sprintf "impl=%s ogc=%s model=%s geom=%s" goval o m1 gtxt));
         if o <> m1 then count "model_differs_from_ogc";
-        if o <> !group_ogc then
+        if o <> !group_ogc && !group_ogc <> "" then
           fail id "CORR" "ogc_repr_invariant" (trunc (Printf.sprintf "base %s ogc=%s this ogc=%s geom=%s" !group_first !group_ogc o gtxt))
       end;
       (* SPEC: representation independence of the implementation's verdict *)
       if goval <> !group_val then
-        fail id "SPEC" "repr_invariant" (trunc (Printf.sprintf "base %s valid=%s, %s valid=%s geom=%s" !group_first !group_val variant goval gtxt));
+        fail id "SPEC" "repr_invariant" (trunc (Printf.sprintf "base %s valid=%s, %s valid=%s geom=%s base=%s" !group_first !group_val variant goval gtxt
+                                                  (if Array.length f > 6 then f.(6) else "?")));
       (* LineString predicates *)
       (match g with
        | VLine vs when get "simple" <> "-" ->
@@ -149,4 +153,12 @@ let () =
         incr samples;
         Printf.printf "SAMPLE\t%s\t%s\t%s\timpl:%s\tmodel_valid=%s\n" id cls gtxt f.(5) m1
       end);
+  (* generator blind spot: every verdict class of the model must have been exercised *)
+  if !cases >= 5000 then
+    List.iter (fun k ->
+        if not (Hashtbl.mem counters k) then fail "generator" "CORR" "generator_blind_spot" ("no case reached " ^ k))
+      ["model_valid"; "model_rule_nan"; "model_rule_inf"; "model_rule_two_points"; "model_rule_ring_empty";
+       "model_rule_ring_closed"; "model_rule_ring_simple"; "model_rule_ring_nested"; "model_rule_interior_in_exterior";
+       "model_rule_interior_connected"; "model_rule_rings_multi_touch"; "model_rule_polys_multi_touch";
+       "simple_0"; "simple_1"; "ring_0"; "ring_1"];
   finish ()
